@@ -422,6 +422,29 @@ pub fn run(g: &mut Global) {
     let tier = g.tier;
     g.random("random", g.tier.pick(40000, 300000), &move || strategy(tier), &check);
     g.random("long", g.tier.pick(64, 800), &long_strategy, &check);
+    // exact arithmetic: periods 1, 3, 7, 15 (alpha = 1, 1/2, 1/4, 1/8) on small-integer prices, where two different
+    // averages become bit-equal in the middle of a stream (a shortcut keyed to "fast == slow" or "value unchanged"
+    // fires there and nowhere on continuous data); every sequence of 6 prices over {1,2,3,4}
+    const DY: [usize; 4] = [1, 3, 7, 15];
+    g.exhaustive(
+        "dyadic_exact",
+        (64 + 4 + 4) * 4096,
+        &|i| {
+            let seq = digits(i % 4096, 4, 6);
+            let r = (i / 4096) as usize;
+            let cfg = if r < 64 {
+                Cfg { kind: Kind::Macd, p: vec![DY[r % 4], DY[(r / 4) % 4], DY[r / 16]], m: X(0.0) }
+            } else if r < 68 {
+                Cfg { kind: Kind::Ema, p: vec![DY[r - 64]], m: X(0.0) }
+            } else {
+                Cfg { kind: Kind::Kc, p: vec![DY[r - 68]], m: X(2.0) }
+            };
+            // the sequence twice: the second pass starts from a non-trivial state
+            let xs: Vec<X> = seq.iter().chain(seq.iter()).map(|&d| X(1.0 + d as f64)).collect();
+            Case { cfg, scalar: true, xs, bars: vec![] }
+        },
+        &check,
+    );
     // identity events (tele.rs): at one or two steps the instance is replaced by its clone, by a used instance
     // (same or longer periods) that clone_from()s it, or by its serde round trip; nothing may change
     g.random("events", g.tier.pick(12000, 100000), &move || crate::tele::wrap(strategy(tier)), &|t: &crate::tele::TCase<Case>, ctx: &mut Ctx| crate::tele::check_wrapped(t, ctx, if t.case.scalar { t.case.xs.len() } else { t.case.bars.len() }, t.case.cfg.n(), check));
